@@ -110,6 +110,20 @@ var c12Families = []struct {
 	{"summarize-bad", func(n int) string { return "T | summarize " + strings.Repeat("a[ , ", n) }},
 	{"dots", func(n int) string { return "T | where a" + strings.Repeat(".b", n) + strings.Repeat(".", n) }},
 	{"strcat", func(n int) string { return "T | project s = strcat(a" + strings.Repeat(", strcat(a, b)", n) + ")" }},
+	{"huge-exponent-take", func(n int) string { return "T | sort by a | take 1e" + strings.Repeat("9", 1+n%19) + " | count" }},
+	{"huge-exponent-top", func(n int) string { return "T | top (2.5e" + strings.Repeat("4", 1+n%19) + ") by b" }},
+	{"huge-exponent-where", func(n int) string {
+		return "T | where a > 1e" + strings.Repeat("7", 1+n%24) + " or b < .5E-" + strings.Repeat("3", 1+n%24)
+	}},
+	{"long-digits", func(n int) string {
+		return "T | where a == " + strings.Repeat("9", n) + " | take " + strings.Repeat("1", 1+n%40)
+	}},
+	{"long-hex", func(n int) string {
+		return "T | where a == 0x" + strings.Repeat("f", n) + " | take 0x" + strings.Repeat("0", n%40) + "1"
+	}},
+	{"long-fraction", func(n int) string {
+		return "T | where a == 0." + strings.Repeat("0", n) + "1e" + strings.Repeat("2", 1+n%12)
+	}},
 	{"comment-lines", func(n int) string { return strings.Repeat("// c\n", n) + "T" + strings.Repeat("\n// d", n) }},
 	{"render-props", func(n int) string { return "T | render c with (a=1" + strings.Repeat(", b='x'", n) + ")" }},
 }
